@@ -344,6 +344,12 @@ func findResultKeys(r resultList) ([]key, error) {
 			if innerResult.Type.Kind() != reflect.Slice {
 				return nil, newErrInvalidInput("decorating a value group requires decorating the entire value group, not a single value", nil)
 			}
+			if innerResult.Flatten {
+				// A decorator replaces the whole group with the slice it
+				// returns; the flattened form would be stored as-is and
+				// handed to consumers of the group with the wrong type.
+				return nil, newErrInvalidInput("cannot use flatten in the value group result of a decorator: a decorator returns the entire value group", nil)
+			}
 			keys = append(keys, key{t: innerResult.Type.Elem(), group: innerResult.Group})
 		case resultObject:
 			for _, f := range innerResult.Fields {
